@@ -568,6 +568,93 @@ def driver_rules(scenario, calls, rows):
     return bad
 
 
+ROW_RE = re.compile(r"^line (\d+) in \[(.*?)\] out \[(.*?)\](?: pass \[(.*?)\] fail \[(.*?)\] unchecked \[(.*?)\])?$")
+
+
+def row_rules(scenario, calls, rows, signals):
+    """More oracles taken from the statements alone and evaluated on every row of the run (nothing recorded):
+    C06: `inputs` has one entry per input-capable signal in signal-list order, `outputs` of a checked row one per
+         output-capable or virtual signal in signal-list order;
+    C07: a numeric input / expected value on a signal of width w < 64 lies in 0 .. 2^w - 1;
+    C03: an entry passes iff its expectation is X, or Z with output Z, or both are equal numbers; unchecked iff expectation X;
+         failing_outputs() = the entries that do not pass (the replay prints all three lists);
+    C02: as long as no error item has occurred, the k-th yielded row is the (k+1)-th driver call, input list identical (values);
+         a row with empty `outputs` went out with the write-only call where the driver tells the two apart."""
+    if not isinstance(rows, list) or not isinstance(calls, list):
+        return []
+    head = scenario.split("\nprogram\n", 1)[0].split("\n")
+    sigs = {}
+    order = []
+    for l in head:
+        w = l.split()
+        if w[:1] == ["signal"] and len(w) >= 4:
+            sigs[w[2]] = (w[1], int(w[3]), w[4] if len(w) > 4 else None)
+            order.append(w[2])
+    override = any(l.strip() == "driver override_write" for l in head)
+    if isinstance(signals, str):
+        bound = signals.split()
+        virt = [n for n in bound if n not in sigs]
+    else:
+        bound, virt = order, []
+    ins = [n for n in bound if n in sigs and sigs[n][0] in ("in", "bidir")]
+    outs = [n for n in bound if (n in sigs and sigs[n][0] in ("out", "bidir")) or n in virt]
+    bad = []
+
+    def num(x):
+        try:
+            return int(x)
+        except ValueError:
+            return None
+    k = 0
+    clean = True
+    for r_ in rows:
+        if r_ == "...":
+            continue
+        if r_.startswith("ERR"):
+            clean = False
+            continue
+        m = ROW_RE.match(r_)
+        if not m:
+            continue
+        k += 1
+        ivals = [e.rstrip("*").split("=", 1) for e in m.group(2).split()]
+        ovals = [e.split("=", 1) for e in m.group(3).split()]
+        if [n for n, _ in ivals] != ins:
+            bad.append(f"C06: inputs of a row are {[n for n, _ in ivals]}, the input-capable signals in list order are {ins} ({r_[:80]})")
+        if ovals and [n for n, _ in ovals] != outs:
+            bad.append(f"C06: outputs of a checked row are {[n for n, _ in ovals]}, the output-capable and virtual signals in list order are {outs}")
+        for n, v in ivals:
+            x = num(v)
+            wd = sigs.get(n, ("", 64))[1]
+            # (a default comes from the caller's signal list, not from the program: C07 does not speak about it)
+            if x is not None and wd < 64 and not (0 <= x < (1 << wd)) and v != sigs.get(n, ("", 64, None))[2]:
+                bad.append(f"C07: input {n}={v} is not reduced to the {wd} bits of the signal")
+        passed, failed, unchecked = [], [], []
+        for n, oe in ovals:
+            o, e = oe.rsplit("/", 1) if "/" in oe else (oe, "X")
+            x = num(e)
+            wd = sigs.get(n, ("", 64))[1]
+            if x is not None and wd < 64 and not (0 <= x < (1 << wd)):
+                bad.append(f"C07: expected value {n}={e} is not reduced to the {wd} bits of the signal")
+            ok = e == "X" or (e == "Z" and o == "Z") or (x is not None and num(o) == x)
+            (passed if ok else failed).append(n)
+            if e == "X":
+                unchecked.append(n)
+        if m.group(4) is not None:
+            if m.group(4).split() != passed or m.group(5).split() != failed or m.group(6).split() != unchecked:
+                bad.append(f"C03: verdicts pass {m.group(4).split()} fail {m.group(5).split()} unchecked {m.group(6).split()} - by the X/Z rules "
+                           f"pass {passed} fail {failed} unchecked {unchecked} ({r_[:100]})")
+        if clean and k < len(calls):
+            cm = re.match(r"([RW])\[(.*)\]$", calls[k])
+            if cm:
+                cvals = [e.rstrip("*").split("=", 1) for e in cm.group(2).split()]
+                if cvals != ivals:
+                    bad.append(f"C02: row {k} carries the inputs {m.group(2)!r} but driver call {k + 1} was {calls[k]!r}")
+                if override and ((cm.group(1) == "W") != (not ovals)) and outs:
+                    bad.append(f"C02: row {k} has {'no' if not ovals else 'its'} outputs but went out with call {calls[k][:1]}")
+    return bad
+
+
 KEEP = ("stage", "outcome", "nrows", "rows", "calls", "vars", "static", "dynproj", "signals", "spans_valid",
         "reparse_equal", "rerun_same", "interleaved_same")
 
@@ -664,6 +751,8 @@ def record():
             b.pop("_raw_rows", None)
             if driver_rules(c, ra, rr):
                 print("  the tree being recorded breaks a driver rule:", f, driver_rules(c, ra, rr)[:1])
+            if row_rules(c, ra, rr, a.get("signals")):
+                print("  the tree being recorded breaks a row rule:", f, row_rules(c, ra, rr, a.get("signals"))[:1])
             if changed_rule(c, dict(calls=ra)):
                 print("  the tree being recorded breaks the `changed` rule:", f, changed_rule(c, dict(calls=ra))[:1])
             # a case on which the two build profiles disagree, or that panics / hangs, is no reference for anything
@@ -751,6 +840,7 @@ def check(focus):
             raw_rows = o.pop("_raw_rows", None)
             bad += [f"{prof}: {b}" for b in changed_rule(c["scenario"], dict(calls=raw_calls))[:2]]
             bad += [f"{prof}: {b}" for b in driver_rules(c["scenario"], raw_calls, raw_rows)[:2]]
+            bad += [f"{prof}: {b}" for b in row_rules(c["scenario"], raw_calls, raw_rows, o.get("signals"))[:2]]
             o, ex = cut(o), cut(dict(c["expect"]))
             if focus in VERDICT_ONLY:
                 o = {k: o.get(k) for k in VERDICT_ONLY[focus]}
